@@ -40,13 +40,29 @@ func init() {
 // ---------- generator ----------
 
 func genCrash(g *gen, n int, tier string, w *bufio.Writer) {
+	c0 := g.intn(1 << 20) // phase of the case kinds: generation is chunked, every chunk must reach every kind
 	for c := 0; c < n; c++ {
 		sync := g.pick(0, 1, 2, 2, 2)
 		mem := g.pick(150, 400, 4096, 1<<20)
-		big := c%4 == 3 // enough bytes to overflow the 64 KB log buffer
+		big := (c+c0)%4 == 3 // enough bytes to overflow the 64 KB log buffer
 		fmt.Fprintf(w, "# case %d\n", c)
 		fmt.Fprintf(w, "cfg sync=%d mem=%d\n", sync, mem)
 		steps := 3 + g.intn(9)
+		manyTx := (c+c0)%16 == 9 && sync != 2 // a transaction of 150-220 entries totalling > 64 KB (more than the log buffer holds)
+		if manyTx {
+			fmt.Fprintln(w, join("w", "put", hx(g.engKey()), hx(g.bytesN(20))))
+			parts := []string{"w", "tx", "0"}
+			m := 150 + g.intn(70)
+			for i := 0; i < m; i++ {
+				parts = append(parts, "p", hx([]byte(fmt.Sprintf("many%04d", i))), hx(g.bytesN(430+g.intn(80))))
+			}
+			parts[2] = strconv.Itoa(m)
+			fmt.Fprintln(w, strings.Join(parts, " "))
+			fmt.Fprintln(w, join("w", "put", hx(g.engKey()), hx(g.bytesN(20))))
+			fmt.Fprintln(w, "plan")
+			fmt.Fprintln(w, "crashall 5")
+			continue
+		}
 		huge := 0 // one entry larger than the whole 64 KB log buffer: the FIRST record written into a file can be torn
 		if big && g.chance(1, 2) {
 			huge = 1
